@@ -270,6 +270,13 @@ func (s *simpleCtx) simpleList(items [][]byte, rng *rand.Rand) bool {
 						s.st.totalSamePathRejected++
 					}
 				})
+				if got {
+					// strict reading of the property ("altering the proof makes verification
+					// fail"): own key, does not abort the list (coverage must stay complete)
+					s.c.Violation("simpleproof:mutation-accepted:total-same-path", map[string]any{"total": n, "index": i, "proof_total": tot, "proof_index": i,
+						"leaf": vf.Hex(leaf), "root": vf.Hex(root), "leaf_hash": vf.Hex(p.LeafHash), "aunts": fmt.Sprintf("%x", p.Aunts)},
+						"SimpleProof for item %d of %d still verifies with Total changed to %d (the (index,total) path is unchanged; Verify documents that Index/Total are for the caller to check)", i, n, tot)
+				}
 				continue
 			}
 			ok = ok && s.expectReject("total", n, i, q, root, leaf)
@@ -405,7 +412,14 @@ func (s *simpleCtx) simpleMap(m map[string][]byte, rng *rand.Rand) bool {
 				continue
 			}
 			if dp != nil && dp.Index == p.Index && samePath(p.Index, p.Total, dp.Index, dp.Total) && bytes.Equal(dp.LeafHash, p.LeafHash) && auntsEqual(dp.Aunts, p.Aunts) {
-				s.st.add(func() { s.st.totalSamePathAccepted++ })
+				var verr error
+				if pv := vf.Try(func() { verr = prt.VerifyValue(mp, root, kp, v) }); pv == nil && verr == nil {
+					s.st.add(func() { s.st.totalSamePathAccepted++ })
+					s.c.Violation("simpleproof:mutation-accepted:total-same-path", map[string]any{"key": k, "total": p.Total, "index": p.Index, "proof_total": dp.Total, "serialized_bit": bit},
+						"map proof for key %q (index %d of %d) still verifies through SimpleValueOp with Total changed to %d by a single-bit flip (path unchanged)", k, p.Index, p.Total, dp.Total)
+				} else {
+					s.st.add(func() { s.st.totalSamePathRejected++ })
+				}
 				continue
 			}
 			s.st.add(func() { s.st.bitflipDecoded++ })
